@@ -289,12 +289,51 @@ def optdep_history(rng):
 
 for k in ("C02", "C03", "C04"):
     OPTS[k]["templates"] = [outofstep_history]
+def symlink_history(rng):
+    """a source file is a symbolic link into a store; edits rewrite the target and leave the link alone"""
+    def tk(i, deps, prods):
+        return {"id": i, "module": 1, "deps": deps, "prods": prods, "mver": 0, "skip": False, "skipifs": [], "persist": False, "prio": 0,
+                "marks": [], "attrs": [], "after_fn": [], "after_expr": None, "use_decorator": False}
+    ts = [tk(1, [101], [111]), tk(2, [111, 102], [112])]
+    rng.shuffle(ts)
+    cfg = {"force": False, "dry_run": False, "max_failures": None, "expression": "", "marker_expression": "", "capture": "no"}
+    b = {"op": "build", "tasks": ts, "cfg": cfg, "faults": {}}
+    ops = [{"op": "set", "n": 101, "c": rng.randint(1, 50), "link": True}, {"op": "set", "n": 102, "c": rng.randint(1, 50)}, dict(b)]
+    for _ in range(rng.randint(1, 3)):
+        ops += [{"op": "set", "n": 101, "c": rng.randint(51, 99), "link": True}, dict(b)]
+    ops += [dict(b)]
+    return {"ops": ops, "sources": [101, 102]}
+
+
 for k in ("C02", "C03"):
-    OPTS[k]["templates"] = OPTS[k]["templates"] + [retamper_history, optdep_history]
+    OPTS[k]["templates"] = OPTS[k]["templates"] + [retamper_history, optdep_history, symlink_history]
     OPTS[k]["ntemplates"] = 6
 for k in ("C04", "C01", "C08"):
     OPTS[k]["templates"] = OPTS[k].get("templates", []) + [mem_history]
 
+
+def dry_after_history(rng):
+    """`after` is an edge from the products of the other task: when that task would be executed, the task
+    that waits for it would be executed as well (its recorded row for the product will not match any more),
+    and so would everything below it; edit, dry run, real build"""
+    def tk(i, deps, prods, after=None):
+        return {"id": i, "module": 1, "deps": deps, "prods": prods, "mver": 0, "skip": False, "skipifs": [], "persist": False, "prio": 0,
+                "marks": [], "attrs": [], "after_fn": [], "after_expr": after, "use_decorator": False}
+    ts = [tk(1, [101], [111]), tk(2, [102], [112], after="t1_"), tk(3, [112], [113])]
+    if rng.random() < 0.5:
+        ts.append(tk(4, [113, 102], [114], after="t3_" if rng.random() < 0.5 else None))
+    rng.shuffle(ts)
+    cfg = {"force": False, "dry_run": False, "max_failures": None, "expression": "", "marker_expression": "", "capture": "no"}
+    def b(**kw):
+        return {"op": "build", "tasks": ts, "cfg": dict(cfg, **kw), "faults": {}}
+    ops = [{"op": "set", "n": 101, "c": rng.randint(1, 50)}, {"op": "set", "n": 102, "c": rng.randint(1, 50)}, b()]
+    for _ in range(rng.randint(1, 2)):
+        ops += [{"op": "set", "n": rng.choice([101, 101, 102]), "c": rng.randint(51, 99)}, b(dry_run=True), b()]
+    return {"ops": ops, "sources": [101, 102]}
+
+
+OPTS["C10"]["templates"] = OPTS["C10"].get("templates", []) + [dry_after_history]
+OPTS["C10"]["ntemplates"] = 5
 
 EXTRA = {"C01": [c01_sorter], "C10": [c10_twin]}
 
